@@ -541,7 +541,7 @@ class Executor:
                 a = self.deref_val(st, a)
                 if hasattr(a, "length64"):
                     return a.length64()
-            raise Unsupported("unary op %s" % rv.op)
+            raise Unsupported("unary op %s on %r" % (rv.op, a))
         if k == "discriminant":
             v = self.read_place(st, f, rv.place)
             if not isinstance(v, EnumV):
